@@ -87,6 +87,17 @@ func (g *Group) render(f *File, w io.Writer, s *Statement) error {
 	return nil
 }
 
+// liveItems counts the items that render: everything but nil and null items.
+func (g *Group) liveItems(f *File) int {
+	n := 0
+	for _, c := range g.items {
+		if c != nil && !c.isNull(f) {
+			n++
+		}
+	}
+	return n
+}
+
 func (g *Group) renderItems(f *File, w io.Writer) (isNull bool, err error) {
 	first := true
 	for _, code := range g.items {
@@ -103,7 +114,8 @@ func (g *Group) renderItems(f *File, w io.Writer) (isNull bool, err error) {
 			continue
 		}
 		if g.name == "values" {
-			if _, ok := code.(Dict); ok && len(g.items) > 1 {
+			// nil and null items vanish from lists, so only the items that render count
+			if _, ok := code.(Dict); ok && g.liveItems(f) > 1 {
 				return false, errors.New("Error in Values: if Dict is used, must be one item only")
 			}
 		}
